@@ -224,8 +224,13 @@ bool ossOperationsFacet::SaveOperationResult(
 ) {
   auto& opHandle = operations.at(pid);
   assert(opHandle != nullptr);
-  const auto guard = core.DndGuard();
-  if (!core.Src().InputData(pid, std::move(opResult.value))) {
+  bool resultSaved{ false };
+  {
+    // Note: only the result of this operation is rewritten silently, operands synchronized later must be able to announce changes
+    const auto guard = core.DndGuard();
+    resultSaved = core.Src().InputData(pid, std::move(opResult.value));
+  }
+  if (!resultSaved) {
     opHandle->broken = true;
     return false;
   } else {
